@@ -1379,6 +1379,10 @@ func runC12(c *lib.Ctx) {
 		c12Replay(c)
 		return
 	}
+	// lib.NewRng(seed) is splitmix64 with state seed*G: the streams of seeds k and k+1 are the same
+	// stream shifted by one draw (and re-align after a data-dependent number of draws). Re-seeding
+	// from the first (well mixed) output gives unrelated streams for neighbouring seeds.
+	c.Rng = lib.NewRng(c.Rng.U64() ^ 0xC12C12)
 	opts := c12GenOpts{
 		sharedInitargs: !c.Findings.Listed("C12", "aspect=initarg cell=initarg/shared"),
 		nilForms:       !c.Findings.Listed("C12", "aspect=make-instance-error cell=initform/nil"),
